@@ -43,9 +43,42 @@ pub open spec fn itdn_post(g1: NameMap, g2: NameMap, i1: ScopedNames<WorkspaceId
     }
 }
 
-/// the writer-side invariant of LuaTypeIndex: c10_remove2's `type_wf` plus what the writers maintain on top of it and `remove`
-/// keeps (lemma_remove_keeps_type_winv): file-scoped declarations live in their own file, generic params belong to a live
-/// declaration, every globally / per-workspace registered name names a live declaration of that scope and text
+/// the writer-side invariant of LuaTypeIndex. `type_wf` of unit c10_remove2 = clauses (1)..(8) below; its clause (2) —
+/// "a super contributed by file g is filed under a class that is LISTED under g" (`supers_listed`) — is NOT maintained by the real
+/// call sites of `add_super_type` (see the unit's findings T1/T2), so it is kept apart: `type_winv` is what every writer and
+/// `remove` maintain unconditionally, `supers_listed` what they maintain as long as supers are only added for listed classes, and
+/// lemma_winv_wf: type_winv && supers_listed ==> type_wf. On top of type_wf's clauses type_winv has: file-scoped declarations live in
+/// their own file, generic params belong to a live declaration, every globally / per-workspace registered name names a live
+/// declaration of that scope and text.
+pub open spec fn decls_listed(s: &LuaTypeIndex) -> bool {
+    // (1) a declaration contributed by file g is listed under g
+    forall|id: LuaTypeDeclId, i: int| s.full_name_type_map@.contains_key(id) && 0 <= i < s.full_name_type_map@[id].locations@.len() ==>
+        s.file_types@.contains_key((#[trigger] s.full_name_type_map@[id].locations@[i]).file_id)
+        && s.file_types@[s.full_name_type_map@[id].locations@[i].file_id]@.contains(id)
+}
+pub open spec fn supers_listed(s: &LuaTypeIndex) -> bool {
+    // (2) a super contributed by file g is filed under a class listed under g
+    forall|id: LuaTypeDeclId, i: int| s.supers@.contains_key(id) && 0 <= i < s.supers@[id]@.len() ==>
+        s.file_types@.contains_key((#[trigger] s.supers@[id]@[i]).file_id) && s.file_types@[s.supers@[id]@[i].file_id]@.contains(id)
+}
+pub open spec fn lists_nonempty(s: &LuaTypeIndex) -> bool {
+    // (3), (4) declarations and super lists are never empty
+    &&& forall|id: LuaTypeDeclId| #[trigger] s.full_name_type_map@.contains_key(id) ==> s.full_name_type_map@[id].locations@.len() > 0
+    &&& forall|id: LuaTypeDeclId| #[trigger] s.supers@.contains_key(id) ==> s.supers@[id]@.len() > 0
+}
+pub open spec fn owners_listed(s: &LuaTypeIndex) -> bool {
+    // (5), (6) a bound type is listed under its owner's file, and only there
+    &&& forall|o: LuaTypeOwner| #[trigger] s.types@.contains_key(o) ==> s.in_filed_type_owner@.contains_key(owner_file(o)) && s.in_filed_type_owner@[owner_file(o)]@.contains(o)
+    &&& forall|g: FileId, o: LuaTypeOwner| s.in_filed_type_owner@.contains_key(g) && #[trigger] s.in_filed_type_owner@[g]@.contains(o) ==> owner_file(o) == g
+}
+pub open spec fn local_names_ok(s: &LuaTypeIndex) -> bool {
+    // (7), (8) file-scoped names: registered under their own file, for a live declaration that lives in that file only; no empty scope map
+    &&& forall|g: FileId, nm: String| s.local_name_type_map@.contains_key(g) && #[trigger] s.local_name_type_map@[g]@.contains_key(nm) ==> {
+            let x = s.local_name_type_map@[g]@[nm];
+            sel_file(x.ident()) == Some((g, nm@)) && s.full_name_type_map@.contains_key(x)
+            && forall|i: int| 0 <= i < s.full_name_type_map@[x].locations@.len() ==> (#[trigger] s.full_name_type_map@[x].locations@[i]).file_id == g }
+    &&& forall|g: FileId| #[trigger] s.local_name_type_map@.contains_key(g) ==> !s.local_name_type_map@[g]@.is_empty()
+}
 pub open spec fn names_live(s: &LuaTypeIndex) -> bool {
     &&& forall|nm: String| #[trigger] s.global_name_type_map@.contains_key(nm) ==>
             sel_global(s.global_name_type_map@[nm].ident()) == Some(((), nm@)) && s.full_name_type_map@.contains_key(s.global_name_type_map@[nm])
@@ -57,13 +90,14 @@ pub open spec fn file_decls_local(full: FullMap) -> bool {
     forall|id: LuaTypeDeclId| #[trigger] full.contains_key(id) ==> (id.ident() matches LuaTypeIdentifier::File(g, _) ==> locs_in(full[id], g))
 }
 pub open spec fn type_winv(s: &LuaTypeIndex) -> bool {
-    &&& type_wf(s)
+    &&& decls_listed(s) &&& lists_nonempty(s) &&& owners_listed(s) &&& local_names_ok(s)
     &&& file_decls_local(s.full_name_type_map@)
     &&& forall|id: LuaTypeDeclId| #[trigger] s.generic_params@.contains_key(id) ==> s.full_name_type_map@.contains_key(id)
     &&& names_live(s)
 }
+/// the writer-side invariant (with the supers clause) implies the invariant unit c10_remove2 assumes for `remove`
 pub proof fn lemma_winv_wf(s: &LuaTypeIndex)
-    requires type_winv(s),
+    requires type_winv(s), supers_listed(s),
     ensures type_wf(s),
 {}
 
@@ -93,7 +127,7 @@ pub proof fn lemma_add_type_decl(o: &LuaTypeIndex, n: &LuaTypeIndex, file_id: Fi
         full_added(o.full_name_type_map@, n.full_name_type_map@, id, decl),
         decl.locations@.len() > 0, locs_in(decl, file_id),
         id.ident() matches LuaTypeIdentifier::File(g, _) ==> g == file_id,
-    ensures type_winv(n),
+    ensures type_winv(n), supers_listed(o) ==> supers_listed(n),
 {
     let full0 = o.full_name_type_map@; let full1 = n.full_name_type_map@;
     let ft0 = o.file_types@; let ft1 = n.file_types@;
@@ -113,9 +147,11 @@ pub proof fn lemma_add_type_decl(o: &LuaTypeIndex, n: &LuaTypeIndex, file_id: Fi
             assert(ft_listed(ft1, file_id, id));
         }
     }
-    assert forall|x: LuaTypeDeclId, i: int| n.supers@.contains_key(x) && 0 <= i < n.supers@[x]@.len() implies
-        ft1.contains_key((#[trigger] n.supers@[x]@[i]).file_id) && ft1[n.supers@[x]@[i].file_id]@.contains(x) by {
-        assert(ft_listed(ft0, o.supers@[x]@[i].file_id, x));
+    if supers_listed(o) {
+        assert forall|x: LuaTypeDeclId, i: int| n.supers@.contains_key(x) && 0 <= i < n.supers@[x]@.len() implies
+            ft1.contains_key((#[trigger] n.supers@[x]@[i]).file_id) && ft1[n.supers@[x]@[i].file_id]@.contains(x) by {
+            assert(ft_listed(ft0, o.supers@[x]@[i].file_id, x));
+        }
     }
     assert forall|x: LuaTypeDeclId| #[trigger] full1.contains_key(x) implies full1[x].locations@.len() > 0 by {
         if x != id { assert(full1.contains_key(x) == full0.contains_key(x)); }
@@ -153,12 +189,7 @@ pub proof fn lemma_add_type_decl_names(o: &LuaTypeIndex, n: &LuaTypeIndex, file_
         forall|x: LuaTypeDeclId| x != id && o.full_name_type_map@.contains_key(x) ==> n.full_name_type_map@[x] == o.full_name_type_map@[x],
         file_decls_local(n.full_name_type_map@),
     ensures
-        names_live(n),
-        forall|g: FileId, nm: String| n.local_name_type_map@.contains_key(g) && #[trigger] n.local_name_type_map@[g]@.contains_key(nm) ==> {
-            let x = n.local_name_type_map@[g]@[nm];
-            sel_file(x.ident()) == Some((g, nm@)) && n.full_name_type_map@.contains_key(x)
-            && forall|i: int| 0 <= i < n.full_name_type_map@[x].locations@.len() ==> (#[trigger] n.full_name_type_map@[x].locations@[i]).file_id == g },
-        forall|g: FileId| #[trigger] n.local_name_type_map@.contains_key(g) ==> !n.local_name_type_map@[g]@.is_empty(),
+        names_live(n), local_names_ok(n),
 {
     let full0 = o.full_name_type_map@; let full1 = n.full_name_type_map@;
     let g0 = o.global_name_type_map@; let g1 = n.global_name_type_map@;
@@ -222,28 +253,33 @@ pub proof fn lemma_add_type_decl_names(o: &LuaTypeIndex, n: &LuaTypeIndex, file_
     }
 }
 
-/// `add_super_type(id, f, ..)` keeps the invariant PROVIDED id is listed under f (the class is declared in that file)
+/// what `add_super_type(id, f, ..)` does: the super list of id — created if need be — gains one entry of file f at its end;
+/// nothing else changes
+pub open spec fn super_added(o: &LuaTypeIndex, n: &LuaTypeIndex, id: LuaTypeDeclId, f: FileId) -> bool {
+    &&& n.file_namespace == o.file_namespace &&& n.file_using_namespace == o.file_using_namespace &&& n.file_types == o.file_types
+    &&& n.full_name_type_map == o.full_name_type_map &&& n.generic_params == o.generic_params &&& n.types == o.types &&& n.in_filed_type_owner == o.in_filed_type_owner
+    &&& n.global_name_type_map == o.global_name_type_map &&& n.internal_name_type_map == o.internal_name_type_map &&& n.local_name_type_map == o.local_name_type_map
+    &&& n.supers@.contains_key(id)
+    &&& forall|x: LuaTypeDeclId| x != id ==> #[trigger] n.supers@.contains_key(x) == o.supers@.contains_key(x) && (o.supers@.contains_key(x) ==> n.supers@[x] == o.supers@[x])
+    &&& n.supers@[id]@.len() > 0 && n.supers@[id]@.last().file_id == f
+    &&& n.supers@[id]@.drop_last() == (if o.supers@.contains_key(id) { o.supers@[id]@ } else { Seq::empty() })
+}
+/// `add_super_type` keeps the writer invariant; it keeps `supers_listed` PROVIDED the class is listed under that file (it is declared there)
 pub proof fn lemma_add_super(o: &LuaTypeIndex, n: &LuaTypeIndex, id: LuaTypeDeclId, f: FileId)
-    requires
-        type_winv(o), ft_listed(o.file_types@, f, id),
-        n.file_namespace == o.file_namespace, n.file_using_namespace == o.file_using_namespace, n.file_types == o.file_types,
-        n.full_name_type_map == o.full_name_type_map, n.generic_params == o.generic_params, n.types == o.types, n.in_filed_type_owner == o.in_filed_type_owner,
-        n.global_name_type_map == o.global_name_type_map, n.internal_name_type_map == o.internal_name_type_map, n.local_name_type_map == o.local_name_type_map,
-        n.supers@.contains_key(id),
-        forall|x: LuaTypeDeclId| x != id ==> #[trigger] n.supers@.contains_key(x) == o.supers@.contains_key(x) && (o.supers@.contains_key(x) ==> n.supers@[x] == o.supers@[x]),
-        n.supers@[id]@.len() > 0, n.supers@[id]@.last().file_id == f,
-        n.supers@[id]@.drop_last() == (if o.supers@.contains_key(id) { o.supers@[id]@ } else { Seq::empty() }),
-    ensures type_winv(n),
+    requires type_winv(o), super_added(o, n, id, f),
+    ensures type_winv(n), supers_listed(o) && ft_listed(o.file_types@, f, id) ==> supers_listed(n),
 {
     let s0 = o.supers@; let s1 = n.supers@;
-    assert forall|x: LuaTypeDeclId, i: int| s1.contains_key(x) && 0 <= i < s1[x]@.len() implies
-        n.file_types@.contains_key((#[trigger] s1[x]@[i]).file_id) && n.file_types@[s1[x]@[i].file_id]@.contains(x) by {
-        if x != id { assert(s1.contains_key(x) == s0.contains_key(x)); assert(s1[x] == s0[x]); }
-        else if i < s1[id]@.len() - 1 { assert(s1[id]@.drop_last().len() == s1[id]@.len() - 1); assert(s1[id]@.drop_last()[i] == s1[id]@[i]); assert(s0.contains_key(id)); assert(s0[id]@[i] == s1[id]@[i]); }
-        else { assert(s1[id]@[i] == s1[id]@.last()); }
-    }
     assert forall|x: LuaTypeDeclId| #[trigger] s1.contains_key(x) implies s1[x]@.len() > 0 by {
         if x != id { assert(s1.contains_key(x) == s0.contains_key(x)); assert(s1[x] == s0[x]); }
+    }
+    if supers_listed(o) && ft_listed(o.file_types@, f, id) {
+        assert forall|x: LuaTypeDeclId, i: int| s1.contains_key(x) && 0 <= i < s1[x]@.len() implies
+            n.file_types@.contains_key((#[trigger] s1[x]@[i]).file_id) && n.file_types@[s1[x]@[i].file_id]@.contains(x) by {
+            if x != id { assert(s1.contains_key(x) == s0.contains_key(x)); assert(s1[x] == s0[x]); }
+            else if i < s1[id]@.len() - 1 { assert(s1[id]@.drop_last().len() == s1[id]@.len() - 1); assert(s1[id]@.drop_last()[i] == s1[id]@[i]); assert(s0.contains_key(id)); assert(s0[id]@[i] == s1[id]@[i]); }
+            else { assert(s1[id]@[i] == s1[id]@.last()); }
+        }
     }
 }
 
@@ -258,7 +294,7 @@ pub proof fn lemma_bind_type(o: &LuaTypeIndex, n: &LuaTypeIndex, w: LuaTypeOwner
         n.file_namespace == o.file_namespace, n.file_using_namespace == o.file_using_namespace, n.file_types == o.file_types,
         n.full_name_type_map == o.full_name_type_map, n.generic_params == o.generic_params, n.supers == o.supers,
         n.global_name_type_map == o.global_name_type_map, n.internal_name_type_map == o.internal_name_type_map, n.local_name_type_map == o.local_name_type_map,
-    ensures type_winv(n),
+    ensures type_winv(n), supers_listed(o) ==> supers_listed(n),
 {
     let m0 = o.in_filed_type_owner@; let m1 = n.in_filed_type_owner@; let f = owner_file(w);
     assert forall|x: LuaTypeOwner| #[trigger] n.types@.contains_key(x) implies m1.contains_key(owner_file(x)) && m1[owner_file(x)]@.contains(x) by {
@@ -288,7 +324,7 @@ pub open spec fn type_remove_post(o: &LuaTypeIndex, n: &LuaTypeIndex, f: FileId)
 }
 /// a declaration that survives `remove(f)` keeps a non-empty sub-list of its old locations, none of them in f
 pub proof fn lemma_remove_decl_locs(o: &LuaTypeIndex, n: &LuaTypeIndex, f: FileId, id: LuaTypeDeclId)
-    requires type_remove_post(o, n, f), type_wf(o), n.full_name_type_map@.contains_key(id),
+    requires type_remove_post(o, n, f), type_winv(o), n.full_name_type_map@.contains_key(id),
     ensures
         o.full_name_type_map@.contains_key(id), n.full_name_type_map@[id].locations@.len() > 0,
         forall|i: int| 0 <= i < n.full_name_type_map@[id].locations@.len() ==>
@@ -307,8 +343,16 @@ pub proof fn lemma_remove_decl_locs(o: &LuaTypeIndex, n: &LuaTypeIndex, f: FileI
         }
     }
 }
+/// a super list that survives `remove(f)` is not empty (whether or not its class is listed under f)
+pub proof fn lemma_remove_super_nonempty(o: &LuaTypeIndex, n: &LuaTypeIndex, f: FileId, id: LuaTypeDeclId)
+    requires type_remove_post(o, n, f), type_winv(o), n.supers@.contains_key(id),
+    ensures o.supers@.contains_key(id), n.supers@[id]@.len() > 0,
+{
+    let ids = ty_listed(o, f); let len = ids.len() as int;
+    if !in_pref(ids, len, id) { assert(n.supers@[id] == o.supers@[id]); }
+}
 pub proof fn lemma_remove_super_locs(o: &LuaTypeIndex, n: &LuaTypeIndex, f: FileId, id: LuaTypeDeclId)
-    requires type_remove_post(o, n, f), type_wf(o), n.supers@.contains_key(id),
+    requires type_remove_post(o, n, f), type_winv(o), supers_listed(o), n.supers@.contains_key(id),
     ensures
         o.supers@.contains_key(id), n.supers@[id]@.len() > 0,
         forall|i: int| 0 <= i < n.supers@[id]@.len() ==> (#[trigger] n.supers@[id]@[i]).file_id != f && o.supers@[id]@.contains(n.supers@[id]@[i]),
@@ -358,9 +402,22 @@ pub proof fn lemma_remove_scope_nonempty<K>(full0: FullMap, ids: Seq<LuaTypeDecl
         assert(m[k]@.contains_key(s)); assert(m[k]@.dom().contains(s));
     }
 }
-pub proof fn lemma_remove_keeps_type_wf(o: &LuaTypeIndex, n: &LuaTypeIndex, f: FileId)
+/// `remove(f)` keeps the supers clause (as long as it held before)
+pub proof fn lemma_remove_keeps_supers_listed(o: &LuaTypeIndex, n: &LuaTypeIndex, f: FileId)
+    requires type_remove_post(o, n, f), type_winv(o), supers_listed(o),
+    ensures supers_listed(n),
+{
+    assert forall|id: LuaTypeDeclId, i: int| n.supers@.contains_key(id) && 0 <= i < n.supers@[id]@.len() implies
+        n.file_types@.contains_key((#[trigger] n.supers@[id]@[i]).file_id) && n.file_types@[n.supers@[id]@[i].file_id]@.contains(id) by {
+        lemma_remove_super_locs(o, n, f, id);
+        let s = n.supers@[id]@[i];
+        let j = choose|j: int| 0 <= j < o.supers@[id]@.len() && o.supers@[id]@[j] == s;
+        assert(o.file_types@.contains_key(o.supers@[id]@[j].file_id));
+    }
+}
+pub proof fn lemma_remove_keeps_type_wf_part(o: &LuaTypeIndex, n: &LuaTypeIndex, f: FileId)
     requires type_remove_post(o, n, f), type_winv(o),
-    ensures type_wf(n),
+    ensures decls_listed(n), lists_nonempty(n), owners_listed(n), local_names_ok(n),
 {
     let ids = ty_listed(o, f); let len = ids.len() as int;
     let full0 = o.full_name_type_map@; let full1 = n.full_name_type_map@;
@@ -371,15 +428,8 @@ pub proof fn lemma_remove_keeps_type_wf(o: &LuaTypeIndex, n: &LuaTypeIndex, f: F
         let j = choose|j: int| 0 <= j < full0[id].locations@.len() && full0[id].locations@[j] == loc;
         assert(o.file_types@.contains_key(full0[id].locations@[j].file_id));
     }
-    assert forall|id: LuaTypeDeclId, i: int| n.supers@.contains_key(id) && 0 <= i < n.supers@[id]@.len() implies
-        n.file_types@.contains_key((#[trigger] n.supers@[id]@[i]).file_id) && n.file_types@[n.supers@[id]@[i].file_id]@.contains(id) by {
-        lemma_remove_super_locs(o, n, f, id);
-        let s = n.supers@[id]@[i];
-        let j = choose|j: int| 0 <= j < o.supers@[id]@.len() && o.supers@[id]@[j] == s;
-        assert(o.file_types@.contains_key(o.supers@[id]@[j].file_id));
-    }
     assert forall|id: LuaTypeDeclId| #[trigger] full1.contains_key(id) implies full1[id].locations@.len() > 0 by { lemma_remove_decl_locs(o, n, f, id); }
-    assert forall|id: LuaTypeDeclId| #[trigger] n.supers@.contains_key(id) implies n.supers@[id]@.len() > 0 by { lemma_remove_super_locs(o, n, f, id); }
+    assert forall|id: LuaTypeDeclId| #[trigger] n.supers@.contains_key(id) implies n.supers@[id]@.len() > 0 by { lemma_remove_super_nonempty(o, n, f, id); }
     assert forall|w: LuaTypeOwner| #[trigger] n.types@.contains_key(w) implies
         n.in_filed_type_owner@.contains_key(owner_file(w)) && n.in_filed_type_owner@[owner_file(w)]@.contains(w) by {
         assert(o.types@.contains_key(w) && !ty_owners(o, f).contains(w));
@@ -410,14 +460,15 @@ pub proof fn lemma_remove_keeps_type_wf(o: &LuaTypeIndex, n: &LuaTypeIndex, f: F
         lemma_remove_scope_nonempty(full0, ids, len, f, sel_f(), l0, l1, g);
     }
 }
-/// `remove(f)` re-establishes the whole writer-side invariant (type_wf included)
+/// `remove(f)` re-establishes the whole writer-side invariant (hence, with lemma_remove_keeps_supers_listed and lemma_winv_wf, type_wf:
+/// the gap unit c10_remove2 lists under not_covered)
 pub proof fn lemma_remove_keeps_type_winv(o: &LuaTypeIndex, n: &LuaTypeIndex, f: FileId)
     requires type_remove_post(o, n, f), type_winv(o),
     ensures type_winv(n),
 {
     let ids = ty_listed(o, f); let len = ids.len() as int;
     let full0 = o.full_name_type_map@; let full1 = n.full_name_type_map@;
-    lemma_remove_keeps_type_wf(o, n, f);
+    lemma_remove_keeps_type_wf_part(o, n, f);
     assert(file_decls_local(full1)) by {
         assert forall|id: LuaTypeDeclId| #[trigger] full1.contains_key(id) implies (id.ident() matches LuaTypeIdentifier::File(g, _) ==> locs_in(full1[id], g)) by {
             lemma_remove_decl_locs(o, n, f, id);
